@@ -322,8 +322,15 @@ def exec_textdose(case, obs):
     doses = shifted(DOSES10[:n], 1)
     fname = "c16_dose" + ext
     with open(fname, "w") as f:
-        for d in doses:
-            f.write(f"{d}\n")
+        if ext == ".csv":
+            # table of a pre-processing log: acquisition number (not ascending in tilt order), tilt, CorrectedDose; file order = image order
+            acq = [(7 * i + 3) % n for i in range(n)] if len({(7 * i + 3) % n for i in range(n)}) == n else list(range(n - 1, -1, -1))
+            f.write(",TiltAngle,CorrectedDose\n")
+            for i, d in enumerate(doses):
+                f.write(f"{acq[i]},{-30.0 + 3.0 * i},{d}\n")
+        else:
+            for d in doses:
+                f.write(f"{d}\n")
     obs.nontrivial = True
     obs.transitions += 1
     try:
@@ -406,7 +413,7 @@ def families(tier, seed):
     algebra = Mapped(Product(psizes, pxs, dpairs, ["zyx", "xyz"]), lambda c: c + (seed,))
 
     f32 = Mapped(Product(sizes, pxs, range(4), ["array", "file"], orders), lambda c: c + (seed,))
-    txt = Mapped(Product([(4, 6), (7, 5)], [1.35], [1, 3, 10], [".txt", ".dose"], [("zyx", "zyx"), ("xyz", "xyz")]), lambda c: c + (seed,))
+    txt = Mapped(Product([(4, 6), (7, 5)], [1.35], [1, 3, 10], [".txt", ".dose", ".csv"], [("zyx", "zyx"), ("xyz", "xyz")]), lambda c: c + (seed,))
 
     single = Mapped(Product([(4, 6), (7, 5)], [1.35], ["mrc-volume(ispg=1)", "mrc-single-image(ispg=0)", "2d-array-yx", "2d-array-xy"], ["zyx", "xyz"]),
                     lambda c: c + (seed,))
